@@ -234,6 +234,109 @@ theorem tri2_invMat (p1 p2 p3 : V2 K) :
         ((p2.sub p1).x * (p3.sub p1).y - (p3.sub p1).x * (p2.sub p1).y) =
       (let m := tri2InvMat p1 p2 p3; ⟨m.m0, m.m1, m.m2, m.m3⟩) := rfl
 
+/-! ## `Contains`, bounds and ball queries of the primitives (C06 round 2) -/
+
+def gm2 (m : M2 K) : model2d.Matrix2 K := ⟨m.m0, m.m1, m.m2, m.m3⟩
+
+theorem coord3_addScalar (a : V3 K) (s : K) : model3d.Coord3D_AddScalar (g3 a) s = g3 (a.addScalar s) := rfl
+theorem coord2_addScalar (a : V2 K) (s : K) : model2d.Coord_AddScalar (g2 a) s = g2 (a.addScalar s) := rfl
+
+theorem sphere_contains (center : V3 K) (r : K) (c : V3 K) :
+    (letI := sqrtOf E; model3d.Sphere_Contains ⟨g3 center, r⟩ (g3 c)) = sphereContains E center r c := rfl
+theorem circle_contains (center : V2 K) (r : K) (c : V2 K) :
+    (letI := sqrtOf E; model2d.Circle_Contains ⟨g2 center, r⟩ (g2 c)) = circleContains E center r c := rfl
+
+/-- `Sphere.SphereCollision(c, r)` is `|SDF(c)| ≤ r`: the threshold ball query that `colliderSDF` bisects on
+(`collider_sdf_brackets`) and that `transformedCollider` forwards (`xfBallQuery`). -/
+theorem sphere_sphereCollision (center : V3 K) (r0 : K) (c : V3 K) (r : K) :
+    (letI := sqrtOf E; model3d.Sphere_SphereCollision ⟨g3 center, r0⟩ (g3 c) r) = sphereBall E center r0 c r := rfl
+theorem circle_circleCollision (center : V2 K) (r0 : K) (c : V2 K) (r : K) :
+    (letI := sqrtOf E; model2d.Circle_CircleCollision ⟨g2 center, r0⟩ (g2 c) r) = circleBall E center r0 c r := rfl
+/-- … which is the model's transformed ball query for the identity distance map. -/
+theorem sphereBall_eq_query (center : V3 K) (r0 : K) (c : V3 K) (r : K) :
+    sphereBall E center r0 c r = xfBallQuery id (sphereSDF E center r0 c) r := rfl
+theorem circleBall_eq_query (center : V2 K) (r0 : K) (c : V2 K) (r : K) :
+    circleBall E center r0 c r = xfBallQuery id (circleSDF E center r0 c) r := rfl
+
+/-- 3-D `Capsule.Contains`: `NewSegment(P1, P2).Dist(c) <= Radius`. -/
+theorem capsule_contains (p1 p2 : V3 K) (r : K) (c : V3 K) :
+    (letI := sqrtOf E; model3d.Capsule_Contains ⟨g3 p1, g3 p2, r⟩ (g3 c)) = capsuleContains3 E p1 p2 r c := by
+  unfold model3d.Capsule_Contains capsuleContains3
+  simp only [newSegment, gseg, segment_dist]
+
+/-- 2-D `Capsule.Contains`: `Segment{P1, P2}.Dist(c) <= Radius`. -/
+theorem capsule2_contains (p1 p2 : V2 K) (r : K) (c : V2 K) :
+    (letI := sqrtOf E; model2d.Capsule_Contains ⟨g2 p1, g2 p2, r⟩ (g2 c)) = capsuleContains2 E p1 p2 r c := by
+  unfold model2d.Capsule_Contains capsuleContains2
+  simp only [segment2_dist]
+
+/-- `Cylinder.Contains` (projection onto the normalised axis `P1 - P2`, range test, radial distance). -/
+theorem cylinder_contains (p1 p2 : V3 K) (r : K) (p : V3 K) :
+    (letI := sqrtOf E; model3d.Cylinder_Contains ⟨g3 p1, g3 p2, r⟩ (g3 p)) = cylinderContains E p1 p2 r p := by
+  unfold model3d.Cylinder_Contains cylinderContains
+  simp only [coord3_sub, coord3_normalize, coord3_dot, coord3_norm, coord3_scale, coord3_add, coord3_dist,
+    gt_iff_lt, Bool.or_eq_true, decide_eq_true_eq]
+  try (split_ifs <;> rfl)
+
+/-- `Cone.Contains` (fraction along the centre line, radius shrinking linearly to the tip). -/
+theorem cone_contains (tip base : V3 K) (r : K) (p : V3 K) :
+    (letI := sqrtOf E; model3d.Cone_Contains ⟨g3 tip, g3 base, r⟩ (g3 p)) = coneContains E tip base r p := by
+  unfold model3d.Cone_Contains coneContains
+  simp only [coord3_sub, coord3_normalize, coord3_dot, coord3_norm, coord3_scale, coord3_add, coord3_dist,
+    gt_iff_lt, Bool.or_eq_true, decide_eq_true_eq]
+  try (split_ifs <;> rfl)
+
+theorem rect_min_max (lo hi : V3 K) :
+    model3d.Rect_Min ⟨g3 lo, g3 hi⟩ = g3 lo ∧ model3d.Rect_Max ⟨g3 lo, g3 hi⟩ = g3 hi := ⟨rfl, rfl⟩
+theorem rect2_min_max (lo hi : V2 K) :
+    model2d.Rect_Min ⟨g2 lo, g2 hi⟩ = g2 lo ∧ model2d.Rect_Max ⟨g2 lo, g2 hi⟩ = g2 hi := ⟨rfl, rfl⟩
+theorem sphere_min_max (center : V3 K) (r : K) :
+    model3d.Sphere_Min ⟨g3 center, r⟩ = g3 (sphereMin center r) ∧
+    model3d.Sphere_Max ⟨g3 center, r⟩ = g3 (sphereMax center r) := ⟨rfl, rfl⟩
+theorem circle_min_max (center : V2 K) (r : K) :
+    model2d.Circle_Min ⟨g2 center, r⟩ = g2 (circleMin center r) ∧
+    model2d.Circle_Max ⟨g2 center, r⟩ = g2 (circleMax center r) := ⟨rfl, rfl⟩
+theorem capsule_min_max (p1 p2 : V3 K) (r : K) :
+    model3d.Capsule_Min ⟨g3 p1, g3 p2, r⟩ = g3 (capsuleMin3 p1 p2 r) ∧
+    model3d.Capsule_Max ⟨g3 p1, g3 p2, r⟩ = g3 (capsuleMax3 p1 p2 r) := ⟨rfl, rfl⟩
+theorem capsule2_min_max (p1 p2 : V2 K) (r : K) :
+    model2d.Capsule_Min ⟨g2 p1, g2 p2, r⟩ = g2 (capsuleMin2 p1 p2 r) ∧
+    model2d.Capsule_Max ⟨g2 p1, g2 p2, r⟩ = g2 (capsuleMax2 p1 p2 r) := ⟨rfl, rfl⟩
+
+/-! ## `Matrix2` and the members of a `JoinedTransform` (the C06 model `Xf3`/`Xf2`) -/
+
+theorem matrix2_mulColumn (m : M2 K) (c : V2 K) :
+    model2d.Matrix2_MulColumn (gm2 m) (g2 c) = g2 (m.mulColumn c) := rfl
+/-- `Matrix2.Inverse` (copy, `InvertInPlace` = `InvertInPlaceDet(Det())`: adjugate, then the `Scale` loop). -/
+theorem matrix2_inverse (m : M2 K) : model2d.Matrix2_Inverse (gm2 m) = gm2 m.inverse := rfl
+
+theorem translate_apply (o c : V3 K) :
+    model3d.Translate_Apply ⟨g3 o⟩ (g3 c) = g3 ((Xf3.translate o).apply c) := rfl
+theorem translate_applyDistance (o : V3 K) (d : K) :
+    model3d.Translate_ApplyDistance ⟨g3 o⟩ d = (Xf3.translate o).applyDistance d := rfl
+theorem scale_apply (k : K) (c : V3 K) :
+    model3d.Scale_Apply ⟨k⟩ (g3 c) = g3 ((Xf3.scale k).apply c) := rfl
+/-- `Scale.ApplyDistance(d) = d * math.Abs(s.Scale)` -/
+theorem scale_applyDistance (k d : K) :
+    model3d.Scale_ApplyDistance ⟨k⟩ d = (Xf3.scale k).applyDistance d := rfl
+theorem rotation_apply (m : M3 K) (c : V3 K) :
+    model3d.Matrix3Transform_Apply ⟨gm3 m⟩ (g3 c) = g3 ((Xf3.rot m).apply c) := rfl
+theorem rotation_applyDistance (m : M3 K) (d : K) :
+    model3d.orthoMatrix3Transform_ApplyDistance ⟨⟨gm3 m⟩⟩ d = (Xf3.rot m).applyDistance d := rfl
+
+theorem translate2_apply (o c : V2 K) :
+    model2d.Translate_Apply ⟨g2 o⟩ (g2 c) = g2 ((Xf2.translate o).apply c) := rfl
+theorem translate2_applyDistance (o : V2 K) (d : K) :
+    model2d.Translate_ApplyDistance ⟨g2 o⟩ d = (Xf2.translate o).applyDistance d := rfl
+theorem scale2_apply (k : K) (c : V2 K) :
+    model2d.Scale_Apply ⟨k⟩ (g2 c) = g2 ((Xf2.scale k).apply c) := rfl
+theorem scale2_applyDistance (k d : K) :
+    model2d.Scale_ApplyDistance ⟨k⟩ d = (Xf2.scale k).applyDistance d := rfl
+theorem rotation2_apply (m : M2 K) (c : V2 K) :
+    model2d.Matrix2Transform_Apply ⟨gm2 m⟩ (g2 c) = g2 ((Xf2.rot m).apply c) := rfl
+theorem rotation2_applyDistance (m : M2 K) (d : K) :
+    model2d.orthoMatrix2Transform_ApplyDistance ⟨⟨gm2 m⟩⟩ d = (Xf2.rot m).applyDistance d := rfl
+
 end sqrt
 
 end M3d.KernelsTie.Sdf
